@@ -40,6 +40,9 @@ func (r TableResult) Summary() string {
 	s := fmt.Sprintf("%d rows, %d paths", r.Rows, r.Paths)
 	if len(r.Bad) > 0 {
 		s += "; mismatches: " + strings.Join(headN(r.Bad, 5), "; ")
+		if len(r.Unknown) > 0 {
+			s += fmt.Sprintf(" (unrecognised conditions: %v)", headN(r.Unknown, 6))
+		}
 	}
 	if len(r.Undec) > 0 {
 		s += fmt.Sprintf("; undecidable rows: %s (unrecognised conditions: %v)", strings.Join(headN(r.Undec, 3), "; "), r.Unknown)
